@@ -36,3 +36,48 @@ class TagCollator:
 
     def __call__(self, batch):
         return {"tag": self.tag, "data": default_collate(list(batch))}
+
+
+class LabelDataset(KDDataset):
+    """root dataset with class labels only; getall_class returns a list / tensor / ndarray depending on `form`"""
+
+    def __init__(self, classes, n_classes, form="list"):
+        super().__init__()
+        self.classes = list(classes)
+        self.n_classes = n_classes
+        self.form = form
+
+    def __len__(self):
+        return len(self.classes)
+
+    def getitem_class(self, idx, ctx=None):
+        return self.classes[idx]
+
+    def getshape_class(self):
+        return (1 if self.n_classes == 2 else self.n_classes),
+
+    def getall_class(self):
+        import numpy as np
+        if self.form == "tensor":
+            return torch.tensor(self.classes)
+        if self.form == "numpy":
+            return np.array(self.classes)
+        return list(self.classes)
+
+
+class PerSampleLabelDataset(KDDataset):
+    """no bulk accessor: samplers must fall back to getitem_class"""
+
+    def __init__(self, classes, n_classes):
+        super().__init__()
+        self.classes = list(classes)
+        self.n_classes = n_classes
+
+    def __len__(self):
+        return len(self.classes)
+
+    def getitem_class(self, idx, ctx=None):
+        return self.classes[idx]
+
+    def getshape_class(self):
+        return (1 if self.n_classes == 2 else self.n_classes),
